@@ -279,6 +279,10 @@ func gen(repo string) (map[string]string, error) {
 		sameSet(rc, []string{"!" + fi + ".IsDir()", "len(net.ParseIP(" + fi + ".Name())) != 0", data + "#1 == nil", "len(" + data + "#0) != 0",
 			"ioutil.ReadDir(" + dir + ")#1 == nil", "recv.shouldCleanup(" + cid + ")"}),
 		"cleanupIP: the only effect is the removal, guarded by exactly: readable directory, not a sub-directory, IP name, readable non-empty file, shouldCleanup(container id)", nf)
+	fact("ipSweepReadInspectRemoveSameIteration", is.removal != nil && len(is.others) == 0 &&
+		rloops == "range recv.allocatedIPDir > range ioutil.ReadDir("+dir+")#0" &&
+		rtext == "removeLeakyIPFile("+file+", "+cid+")" && has(rc, "recv.shouldCleanup("+cid+")"),
+		"cleanupIP: ReadFile of a path, shouldCleanup of the id read from it and the removal of THAT path happen in the same iteration of the entry loop (the owner is read immediately before it is judged; no map / list of paths is built beforehand and removed later)", nf)
 	fact("ipSweepSkipsMissingDir", rloops == "range recv.allocatedIPDir > range ioutil.ReadDir("+dir+")#0" && has(rc, "ioutil.ReadDir("+dir+")#1 == nil"),
 		"cleanupIP: every directory of allocatedIPDir, unreadable ones skipped", nf)
 	cg, err := p.Fn("flannelGC", "cleanupGCDirs")
